@@ -209,6 +209,11 @@ pub fn child_open(args: &[String]) -> i32 {
         install_hook();
     }
     crate::guard::install_panic_hook(true);
+    // the parent kills a child that hangs; if the parent itself is gone (shard killed or finished) nobody would
+    std::thread::spawn(|| {
+        std::thread::sleep(Duration::from_secs(150));
+        std::process::exit(97);
+    });
     let cfg = DbCfg { disk: true, io_threads, partition_combine_factor: factor, ..DbCfg::default() };
     let op = OpCell::default();
     let db = Db::open_at(&cfg, Some(dir), false, &op);
